@@ -172,3 +172,14 @@ Proof.
   unfold store_confirm. destruct (get_msg s u) as [m|]; auto. destruct (m_conf m); auto.
   destruct (_ =? _)%Z; cbn; unfold upd_msg; destruct (get_msg s u); reflexivity.
 Qed.
+
+(* the handshake stage of a connection is not part of any queue or channel *)
+Lemma queues_set_stage s c st : queues (set_stage s c st) = queues s.
+Proof. unfold set_stage. destruct (get_conn s c); reflexivity. Qed.
+Lemma get_chan_set_stage s c st c' h' : get_chan (set_stage s c st) c' h' = get_chan s c' h'.
+Proof.
+  unfold set_stage. destruct (get_conn s c) as [cn|] eqn:Ec; auto.
+  unfold get_chan, get_conn in *. cbn. rewrite (alookup_aset N.eqb).
+  2:{ intros a b. split; [apply N.eqb_eq|intros ->; apply N.eqb_refl]. }
+  destruct (c' =? c) eqn:E; auto. apply N.eqb_eq in E. subst. rewrite Ec. reflexivity.
+Qed.
